@@ -258,6 +258,9 @@ class AbstractDateTime(AnyAtomicType):
         if isinstance(other, datetime.datetime):
             dt, year = other, other.year
         elif isinstance(other, AbstractDateTime):
+            if op is operator.eq and not isinstance(other, type(self)) \
+                    and not isinstance(self, type(other)):
+                return False  # values of different date/time types are never equal
             match (self.name, other.name):
                 case ('time', 'date') | ('date', 'time'):
                     if op is operator.eq:
